@@ -110,3 +110,52 @@ Theorem C07_reference_code :
             nth_error rtags k = Some tag /\ tag <> [] /\ out = ao ++ ds ++ am ++ tag).
 Proof. exact EmitAction.arg_code_spec. Qed.
 Print Assumptions C07_reference_code.
+
+From YG Require Import LRBase CompleteDriver LR0Build Resolve TableCert PackCore Pipeline PipelineRun Drivers DriverSim Values Front WfGrammar YParser EndToEnd GotoAfterReduce EndToEndWf.
+Close Scope Z_scope.
+Open Scope nat_scope.
+
+(* from the bytes of the grammar file: for the tables the generator computes for a text, in every variant, the value returned for an accepted input is the bottom-up evaluation of the actions over a parse tree whose yield is that input and whose post-order is the sequence of reductions performed; no run crashes or returns nil. The only hypothesis left is the agreement of the packed lookups with the matrix (C05_from_the_text); that after every reduction there is a goto is proved of every emitted table (C07_goto_after_reduce) *)
+Theorem C07_from_the_text :
+  forall (s : list Ascii.ascii) (b : built) (t : tables),
+         generate_text s = GOk b t ->
+         packed_agrees (b_gi b) t ->
+         forall (v : variant) (act : semact) (fuel : nat) (inp : list tok),
+         (forall x : tok, In x inp -> fst x <> eof /\ fst x < gi_nsyms (b_gi b)) ->
+         match parse v t (gi_rules (b_gi b)) act fuel inp with
+         | RAcc value out =>
+             exists tr : vtree,
+               vvalid (gi_rules (b_gi b)) tr /\
+               Some (vroot (gi_rules (b_gi b)) tr) = hd_error (rhs_of (gi_rules (b_gi b)) 0) /\
+               vyield tr = inp /\ vpost tr = out /\ value = veval act tr
+         | RCrash | RNil => False
+         | _ => True
+         end.
+Proof. exact EndToEndWf.text_values. Qed.
+Print Assumptions C07_from_the_text.
+
+From YG Require Import LRBase CompleteDriver LR0Build Resolve TableCert PackCore Pipeline PipelineRun Drivers DriverSim Values Front WfGrammar YParser EndToEnd GotoAfterReduce EndToEndWf.
+Close Scope Z_scope.
+Open Scope nat_scope.
+
+(* in every state that holds an initial item A -> . w of a rule other than rule 0 the emitted table has a shift entry in the column of A: the item is there because some item of the state has A after the dot (closure), so the automaton has a transition on A, and no reduction competes for the column of a nonterminal (lookaheads are terminals) *)
+Theorem C07_goto_after_reduce :
+  forall gi : ginfo,
+         (forall r d : nat, nth_error (rhs_of (gi_rules gi) r) d <> Some 0) ->
+         lhs_of (gi_rules gi) 0 = 0 ->
+         (forall r d : nat, nth_error (rhs_of (gi_rules gi) r) d <> Some eof) ->
+         rhs_of (gi_rules gi) 0 = [start_user (gi_rules gi)] ->
+         ~ is_nt (gi_rules gi) eof ->
+         (forall (seq : list nat) (l : nat),
+          ~ is_nt (gi_rules gi) l -> exists b : nat, first_seq (gi_rules gi) (seq ++ [l]) b) ->
+         forall t : tables,
+         generate_tables gi = inr t ->
+         forall q r : nat,
+         In (r, 0) (items (LRBase.st (t_aut t) q)) ->
+         r <> 0 ->
+         r < length (gi_rules gi) ->
+         exists q' : nat,
+           gen_table (gi_rules gi) (t_aut t) (la_lookup (t_la t)) (sprec_of gi) (rprec_of gi) q
+             (lhs_of (gi_rules gi) r) = Shift q'.
+Proof. exact GotoAfterReduce.goto_after_reduce. Qed.
+Print Assumptions C07_goto_after_reduce.
